@@ -1,9 +1,11 @@
 import CookModel.Driver.Num
 import CookModel.Driver.Aisle
+import CookModel.Driver.Syntax
 /- Registry of line-protocol handlers. One line per area. -/
 namespace Cook.Driver
 def handlers : List (List String → Option String) := [
   handleNum,
-  handleAisle
+  handleAisle,
+  handleSyntax
 ]
 end Cook.Driver
